@@ -92,12 +92,12 @@ SameMgr == UNCHANGED << alg, fam, style, nctx >>
 IsEv(name) == l <= NEv /\ Tr[l].e = name
 Step(v) == /\ l' = l + 1
            /\ viol' = Cap(viol \o v)
-           /\ Publish(viol', l')
+           /\ PubResult(viol', l')
 
 TInit == /\ Init
          /\ l = 1 /\ alg = "none" /\ fam = "none" /\ style = 0 /\ nctx = 0
          /\ psts = << >> /\ lost = TRUE /\ viol = << >>
-         /\ Publish(<< >>, 1)
+         /\ PubResult(<< >>, 1)
 
 TReset ==
   /\ IsEv("HReset")
